@@ -73,6 +73,73 @@ theorem not_late_positions_exact : ¬ late_positions_exact := by
   rw [h1.2.2.1] at this
   exact absurd this (by decide)
 
+/-! ### … and under the per-partition write lock of `Service.Write` (regenerated fact `writeLockScope`; /repo 25f9816) -/
+
+/-- the statement at full strength for the write lock as the source has it: between a call's return and its late count read the
+other writers take whatever steps the lock leaves them (`between`) — for every assignment `noEv` of `noEvent` arguments to writers -/
+def late_positions_exact_locked : Prop :=
+  ∀ (maxSize : Nat) (noEv : Nat → Bool) (s : WritersLts.State) (more : List WritersLts.Label) (l : WritersLts.Label)
+    (r : WritersLts.Ret), WritersLts.retOf maxSize s l = some r →
+    WritersLts.lateCount (WritersLts.run maxSize ((WritersLts.step maxSize s l).getD s) (WritersLts.between noEv r.w more)) r.chunk
+      - r.n = r.first
+
+/-- **Positions are exact among writers that all take the partition's write lock** — whatever `writeLockScope` is: if every
+writer of the partition holds the lock (`takesLock (noEv v)` for all `v`), then whatever the others attempt between a call's return
+and its late count read, `cnt - n` is the index of the call's first record (with `writer_positions_delimit_own_records`: the
+announced range is exactly the call's own records). -/
+theorem late_positions_exact_for_locking_writers (maxSize : Nat) (noEv : Nat → Bool)
+    (hall : ∀ v, WritersLts.takesLock (noEv v) = true) (s : WritersLts.State) (more : List WritersLts.Label)
+    (l : WritersLts.Label) (r : WritersLts.Ret) (h : WritersLts.retOf maxSize s l = some r) :
+    WritersLts.lateCount (WritersLts.run maxSize ((WritersLts.step maxSize s l).getD s) (WritersLts.between noEv r.w more)) r.chunk
+      - r.n = r.first :=
+  WritersLts.late_count_exact_when_all_lock maxSize noEv hall s more l r h
+
+/-- on a tree where at least the event-publishing writers are serialised (`1 ≤ writeLockScope`, /repo 25f9816): writers that all
+call with `noEvent = false` (the RPC ingestor) get exact positions -/
+theorem late_positions_exact_when_events_published (h1 : 1 ≤ Generated.C01.writeLockScope ∧ Generated.C01.writeLockScope ≤ 2)
+    (maxSize : Nat) (noEv : Nat → Bool) (hev : ∀ v, noEv v = false) (s : WritersLts.State) (more : List WritersLts.Label)
+    (l : WritersLts.Label) (r : WritersLts.Ret) (h : WritersLts.retOf maxSize s l = some r) :
+    WritersLts.lateCount (WritersLts.run maxSize ((WritersLts.step maxSize s l).getD s) (WritersLts.between noEv r.w more)) r.chunk
+      - r.n = r.first := by
+  apply late_positions_exact_for_locking_writers maxSize noEv _ s more l r h
+  intro v
+  have : Generated.C01.writeLockScope = 1 ∨ Generated.C01.writeLockScope = 2 := by omega
+  rcases this with e | e <;> simp [WritersLts.takesLock, e, hev v]
+
+/-- **the branch for the complete repair** (`writeLockScope = 2`: every caller of `Service.Write` takes the lock): the full statement
+holds. Vacuous while the lock is conditional. -/
+theorem late_positions_exact_all_writers (h2 : Generated.C01.writeLockScope = 2) : late_positions_exact_locked := by
+  intro maxSize noEv s more l r h
+  exact late_positions_exact_for_locking_writers maxSize noEv (fun v => by simp [WritersLts.takesLock, h2]) s more l r h
+
+/-- **the other branch (finding F-C01-901, open while `writeLockScope ≠ 2`)**: as long as some callers do not take the lock — the
+pipe workers call with `noEvent = true` — the counterexample schedule stands: two such writers on one chunk, writer 2's record lands
+between writer 1's unlock and its count read. -/
+theorem cex_unlocked_writers_shift (h2 : Generated.C01.writeLockScope ≠ 2) : ¬ late_positions_exact_locked := by
+  intro h
+  have h1 := WritersLts.cex_late_count_shifts_positions
+  have hno : WritersLts.takesLock true = false := by
+    unfold WritersLts.takesLock
+    simp only [h2, ↓reduceIte]
+    split <;> rfl
+  have hb : WritersLts.between (fun _ => true) 1 [.chunkWrite 2] = [.chunkWrite 2] := by
+    simp [WritersLts.between, hno]
+  have := h 100 (fun _ => true) WritersLts.cexBefore [.chunkWrite 2] (.chunkWrite 1) _ h1.1
+  rw [show (⟨1, 0, 0, 2, [⟨1, [1]⟩, ⟨1, [2]⟩]⟩ : WritersLts.Ret).w = 1 from rfl, hb] at this
+  have e : WritersLts.run 100 ((WritersLts.step 100 WritersLts.cexBefore (.chunkWrite 1)).getD WritersLts.cexBefore) [.chunkWrite 2]
+      = WritersLts.cexS2 := by
+    unfold WritersLts.cexS2 WritersLts.cexS1 WritersLts.cexBefore
+    rfl
+  rw [e, h1.2.2.1] at this
+  exact absurd this (by decide)
+
+/-- non-vacuity of the hypothesis "all writers take the lock", whichever of the two lock shapes the source has: writers that
+publish their events do -/
+example (h : 1 ≤ Generated.C01.writeLockScope ∧ Generated.C01.writeLockScope ≤ 2) : ∀ v : Nat, WritersLts.takesLock ((fun _ => false) v) = true := by
+  intro _
+  have : Generated.C01.writeLockScope = 1 ∨ Generated.C01.writeLockScope = 2 := by omega
+  rcases this with e | e <;> simp [WritersLts.takesLock, e]
+
 /-- non-vacuity: writer 1's batch spans a roll-over, writer 2's record lands in between; three calls wrote something -/
 example : (WritersLts.runLog 10 {} [.submit 1 [[1], [2], [3]], .submit 2 [[9]], .getChunk 1, .chunkWrite 1, .getChunk 2,
     .chunkWrite 2, .getChunk 2, .chunkWrite 2, .getChunk 1, .chunkWrite 1]).2.map (fun r => (r.w, r.chunk, r.first, r.n))
